@@ -71,6 +71,8 @@ KindOf(j) ==
             [] t = 2 -> [a |-> i, k |-> i, s |-> "bad"]    \* corrupted signature
             [] t = 3 -> [a |-> i, k |-> 0, s |-> "good"]   \* member i's address, somebody else's key
 Decode(q) == [x \in DOMAIN q |-> KindOf(q[x])]
+(* printed once per TLC run: the check reads the kind table from here instead of re-implementing KindOf *)
+ASSUME PrintT(<<"KINDTABLE", [j \in 1..NumKinds(10) |-> KindOf(j)]>>)
 
 -----------------------------------------------------------------------------
 (* The property's vocabulary (independent of the procedures) *)
